@@ -6,6 +6,14 @@ props = [json.loads(l) for l in open(os.path.join(V, "properties.jsonl"))]
 BASELINE = "cd /repo && go build ./... && go test -vet=off -count=1 -timeout 25m ./..."
 
 CHECKS = {
+ "C12": dict(cat="fault_enumeration",
+   text="XjsFaults defines the fault space on rendered programs of XjsPrograms (every single-token deletion, every removal of a statement separator, every truncation after a token inside an open bracket or block, every truncation inside a string/backtick literal; MC_C12L additionally cuts literals with escapes - escaped quote, escaped backslash, other quote - at every byte offset); TLC enumerates programs x faults, records the verdict of the transcribed parser/lexer model and exports every corrupted token list with the index of the last intact token; reference parsers (V8 and acorn) keep the corrupted texts that are no longer JavaScript (and whose original is); the real strict parser is run on each and TLC (Trace_C12) judges the real errors: at least one, the first not before the last intact token.",
+   note="Trusted: V8 and acorn as the meaning of 'valid JavaScript' (both must reject the corrupted text and accept the original); the mechanical token-to-text spelling. Positions are compared with the real lexer's token list.",
+   tech="TLA+ fault model + TLC enumeration of programs x faults with the transcribed parser's verdict; replay on the real strict parser; reference-parser filter; TLC validation of recorded errors", ref="DESIGN.md 5 C12"),
+ "C13": dict(cat="model_checking",
+   text="TLC runs the transcribed parser model (XjsParser) in the four mode combinations on every enumerated program x layout, on every fusable sibling boundary, on every count of removed trailing block braces and on line-break-only separators in front of `(`/`[`, and checks the mode contract on the model; each input is exported and parsed by the real parser in the four modes - the four parsers built from ONE builder that is reconfigured between the Build() calls, and also from separate builders - plus default mode on the `;`-variant; TLC (Trace_C13) judges the real results against C13_Failures (tolerant = strict on accepted programs; fused statements / open blocks accepted by tolerant mode with the program's tree; smart = default unless a bracket starts a line, and then = default with a semicolon in front of it).",
+   note="Trusted: the reading of 'two statements on one line' (claimed only where the first statement cannot absorb the first token of the second and strict mode rejects) and of 'as if a semicolon preceded it' (judged when the text with the semicolon is accepted).",
+   tech="TLA+ transcription of the parser with mode flags + TLC exhaustive small-scope programs x layouts x faults; replay on the real parser in 4 modes from a shared and from separate builders; TLC validation of the recorded results", ref="DESIGN.md 5 C13"),
  "C02": dict(cat="model_checking",
    text="XjsGrammar holds an ECMAScript reference grammar of the subset written independently of the parser's tables (operator levels, associativity, well-formedness, in-order yield, automatic semicolon insertion with the restricted productions) and an independent unparser; XjsPrograms enumerates every parent/child operator pair and side up to the cfg's depth in statement contexts and every sequence of statement templates; TLC renders each tree in many layouts (redundant parentheses, separators, line breaks in every permitted gap), checks that the transcribed parser model (XjsParser) returns exactly that tree, and exports each (token list, tree); the token lists are spelled out as text in several gap spellings (LF, CRLF, comments, blank lines, tight, wide, single quotes), parsed by the real parser, and TLC (Trace_C02) judges every real result: no error, stripped tree equal to the ECMAScript tree, yield/levels/ASI predicate on the real token list.",
    note="Trusted: the reference grammar of XjsGrammar as a reading of ECMAScript for the subset; TLC; the mechanical token-to-text spelling in lib/render.py.",
